@@ -307,6 +307,13 @@ class ExprMixin:
     def user_contains(self, cont, item, n):
         """`x in obj` for an object of a class without a model: an uninterpreted
         predicate of (object, item) - pure, value unknown"""
+        h = base_hint(cont.hint)
+        if h.startswith("obj:"):
+            m = self.find_method(h[4:], "__contains__")
+            if m is not None:
+                mi, cnode, fnode = m
+                pf = PyFunc(fnode, None, mi, cnode.name + ".__contains__", bound_self=cont, cls=cnode.name)
+                return self.truthy(self.call(py(pf, "func"), [item], {}, n, None))
         f = z3.Function("obj_contains", core.IntS, Val, core.BoolS)
         return f(self.as_addr(cont), self.to_val(item))
 
@@ -520,6 +527,8 @@ class ExprMixin:
                 ks = z3.simplify(self.as_str(idx))
                 if z3.is_string_value(ks) and ks.as_string() in o:
                     return o[ks.as_string()]
+                if self.in_spec:
+                    return TV("val", core.fresh("nokey", Val))  # total in clauses: an arbitrary value
                 raise Unsupported("subscript of a python-side dict with unknown key")
             if isinstance(o, ObjDict):
                 nm = self.as_str(idx)
